@@ -190,6 +190,10 @@ def parseTop (tagsOk : Bool) (bs : Bytes) : Option Wire :=
   | some (w, []) => some w
   | _ => none
 
+/-- `decModeWithTagsForbidden.Wellformed(bs) == nil`: exactly one item, nothing after it,
+    no tag anywhere, nesting and element counts within the decoder's limits. -/
+def wellformedNoTags (bs : Bytes) : Bool := (parseTop false bs).isSome
+
 /-- well-formedness of the first item only (the rest is returned) -/
 def parseFirst (tagsOk : Bool) (bs : Bytes) : Option (Wire × Bytes) :=
   parseItem tagsOk (fuelFor bs) 0 bs
